@@ -1,5 +1,6 @@
 """Loader and basic graph analyses over the driver's fact files (A1-A4)."""
 import json
+import os
 from collections import defaultdict, deque
 
 
@@ -305,6 +306,9 @@ class Facts:
         with open(path) as f:
             d = json.load(f)
         self.raw = d
+        # functions the reference tree does not have are inlined at their call sites (analysis/inline.py)
+        from . import inline
+        self.inline_report = inline.apply(d) if os.environ.get("REPE_NO_INLINE") != "1" else {"new_functions": [], "inlined": [], "skipped": []}
         self.features = d["features"]
         self.adts = d["adts"]
         self.impls = d["impls"]
